@@ -241,6 +241,24 @@ impl BatchSender {
     }
 }
 
+/// Queue observation for the out-of-tree checker (feature `verif-hooks`).
+#[cfg(feature = "verif-hooks")]
+impl BatchSender {
+    /// Queued `(bytes, seq, queue_time_ms)` in queue order.
+    pub fn verif_queue(&self) -> Vec<(Vec<u8>, Option<u32>, u64)> {
+        self.queue
+            .iter()
+            .zip(self.sequences.iter())
+            .zip(self.queue_times.iter())
+            .map(|((d, s), t)| (d.to_vec(), *s, *t))
+            .collect()
+    }
+
+    pub fn verif_last_flush_ms(&self) -> u64 {
+        self.last_flush_ms
+    }
+}
+
 #[cfg(test)]
 mod tests {
     use super::*;
